@@ -694,3 +694,28 @@ Definition run (f : format) (d : option decls) (file : list Z) : obs :=
                      if eager_format f && existsb is_err cols then ObsErr else Obs (len (t_starts t)) cols true
          end
   end.
+
+(* ---------- a row subset taken BEFORE the first parse (TextThroughputExtractor.__getitem__ / the lazily read table's
+   __getitem__): the buffer is kept, the rows of the start / end tables and the record ends are selected (any order, repeats
+   allowed; boolean masks, slices and negative indices are normalised to an index list by NumPy's own rules), and only
+   then are the columns parsed.  Eagerly parsed formats (wrapped FASTA) select the parsed rows. ---------- *)
+Definition take_rows {A} (d : A) (l : list A) (idx : list Z) : list A := map (fun i => nth (Z.to_nat i) l d) idx.
+Definition table_select (idx : list Z) (t : table) : table :=
+  {| t_data := t_data t; t_starts := take_rows [] (t_starts t) idx; t_ends := take_rows [] (t_ends t) idx;
+     t_eends := take_rows 0 (t_eends t) idx |}.
+Definition colres_select (idx : list Z) (c : colres) : colres :=
+  match c with ColErr => ColErr | Col l => Col (take_rows (CInt 0) l idx) end.
+Definition run_sel (f : format) (d : option decls) (file : list Z) (idx : list Z) : obs :=
+  let body := skip_header (comment_byte f) file in
+  match f with
+  | Ffasta => match fasta_cols body with
+              | Some (n, cols) => if existsb is_err cols then ObsErr else Obs (len idx) (map (colres_select idx) cols) true
+              | None => ObsErr end
+  | _ => match table_of f body with
+         | None => ObsErr
+         | Some t => if eager_format f
+                     then (if existsb is_err (run_cols f d t) then ObsErr
+                           else Obs (len idx) (map (colres_select idx) (run_cols f d t)) true)   (* read() parsed every column already *)
+                     else Obs (len idx) (run_cols f d (table_select idx t)) true
+         end
+  end.
